@@ -101,7 +101,19 @@ def q_c02_remove_prefix(bodies):
                 raise Inconclusive("predicate asked about something that is not a row of the window: %s" % rec[:60])
             return [("sel_%d" % i, "(b2v true)"), ("(not sel_%d)" % i, "(b2v false)")]
         m_pred.wants_env = True
+        def m_table_touch(ex, v, env):
+            env["__log"] = env.get("__log", ()) + (("touch", _deep(ex, env, v[0]) if v else "", ex._cur),)
+            ex.smt.fun("opq_touch", 1)
+            return "(C_Ok (opq_touch %s))" % ex._konst("int_%d" % (9000 + len(env["__log"])))
+        m_table_touch.wants_env = True
+
+        def m_opaque_bounds(ex, v, env):
+            ex.smt.fun("opq_bounds", 1)
+            return "(opq_bounds %s)" % ex._konst("int_%d" % (9500 + len(env.get("__log", ()))))
+        m_opaque_bounds.wants_env = True
         models.update({
+            r"^(Multimap)?Table::<.*>::(retain|retain_in|remove|insert|pop_first|pop_last|extract_if|drain|drain_filter|remove_all)(::<.*>)?$": m_table_touch,
+            r"^ByKeyBounds::(new|namespace|as_ref)$|^RecordsBounds::(namespace|author_key|new|from_start|to_end)$": m_opaque_bounds,
             r"^RecordIdentifier::namespace$": lambda ex, v: "(ns_of %s)" % mk_deref(v[0]),
             r"^RecordIdentifier::author$": lambda ex, v: "(author_of %s)" % mk_deref(v[0]),
             r"^RecordIdentifier::key_bytes$": lambda ex, v: "(keybytes_of %s)" % mk_deref(v[0]),
@@ -119,7 +131,12 @@ def q_c02_remove_prefix(bodies):
         sf = re.findall(r"^\s*(?:pub(?:\([^)]*\))? )?(\w+)\s*:", m.group(1), re.M) if m else []
         if sorted(sf) != ["namespace", "store"]:
             return dict(name=name, property="C02", verdict="inconclusive", detail="StoreInstance layout changed: %s" % sf, functions=[])
-        ex = PMExec(bodies, smt, models=models, max_paths=2000, max_depth=8000)
+        class TExec(PMExec):
+            def call(self, callee, vals, env=None):
+                self._cur = callee
+                return super().call(callee, vals, env)
+        ex = TExec(bodies, smt, models=models, max_paths=2000, max_depth=8000)
+        ex._cur = ""
         try:
             paths = ex.run(hits[0], ["SELF", "(ref ID)", "PRED"], heap0={("SELF", str(sf.index("store"))): "STORE", ("SELF", str(sf.index("namespace"))): "MYNS"}, feasibility=False)
         except (Inconclusive, ValueError, AssertionError, KeyError, IndexError, RecursionError) as e:
@@ -144,6 +161,11 @@ def q_c02_remove_prefix(bodies):
             want_bounds = "(C_asref (C_bounds (ns_of ID) (author_of ID) (keybytes_of ID)))"
             if len(scans) != 1 or scans[0][1] != RECORDS or scans[0][2] != want_bounds:
                 problems.append(("the scan goes over the records table with the bounds author_prefix(id.namespace, id.author, id.key) of the identifier it was asked about", "sat", tag + " scans=%s" % (scans,)))
+                continue
+            touches = [l for l in log if l[0] == "touch"]
+            if touches:
+                problems.append(("pruning changes the records table only, through the one scan: no other row of any table is removed or written (a by-key index row of a surviving entry must stay, or key-ordered queries lose it)", "sat",
+                                 tag + " also: %s" % [(t[2][:60], t[1][:50]) for t in touches][:2]))
                 continue
             if "(not scan_ok)" in flat:
                 if not ret.startswith("(C_Err"):
